@@ -225,7 +225,9 @@ func check(c geneCase) *vlib.Failure {
 		switch o.Kind {
 		case "set":
 			want, ok := setAccepts(o.Exons)
-			err := w.t.SetExons(w.exons(o.Exons)...)
+			buf := w.exons(o.Exons)
+			err := w.t.SetExons(buf...)
+			scribble(w, buf) // the caller's slice is the caller's: what it does with it later is not the transcript's business
 			if ok != (err == nil) {
 				return vlib.Failf("set-acceptance", "op %d: SetExons(%v) returned %v, contract says accepted=%v", oi, o.Exons, err, ok)
 			}
@@ -243,7 +245,9 @@ func check(c geneCase) *vlib.Failure {
 			}
 			held := spansOf(w, s)
 			want, ok := addAccepts(model, o.Exons)
-			res, err := s.Add(w.exons(o.Exons)...)
+			buf := w.exons(o.Exons)
+			res, err := s.Add(buf...)
+			scribble(w, buf)
 			if ok != (err == nil) {
 				return vlib.Failf("add-acceptance", "op %d: %v.Add(%v) returned %v, contract says accepted=%v", oi, held, o.Exons, err, ok)
 			}
@@ -261,6 +265,7 @@ func check(c geneCase) *vlib.Failure {
 				// install the result through SetExons
 				w2, ok2 := setAccepts(want)
 				err := w.t.SetExons(res...)
+				scribble(w, res)
 				if ok2 != (err == nil) {
 					return vlib.Failf("set-acceptance", "op %d: SetExons(result of Add %v) returned %v, contract says accepted=%v", oi, want, err, ok2)
 				}
@@ -283,6 +288,15 @@ func check(c geneCase) *vlib.Failure {
 		}
 	}
 	return checkNesting(w, c, model)
+}
+
+// scribble overwrites every element of a slice the harness passed to the
+// library with an exon that overlaps everything, and reverses nothing else:
+// a library that kept the caller's slice instead of a copy now holds garbage.
+func scribble(w *world, buf []gene.Exon) {
+	for i := range buf {
+		buf[i] = w.exon(span{Off: 0, Len: 7777 + i})
+	}
 }
 
 func checkTiling(w *world, c geneCase, model []span) *vlib.Failure {
